@@ -23,7 +23,12 @@ MANIFEST = dict(
           "scale on both sides, and it is the verdict of u/v == 1, u**-1 == v**-1, u**p == v**p; table units from both ends of the table "
           "incl. a sum of two quantities that trusts ==), equal hash for the same "
           "expression, simplify()/as_coeff_unit()/cached unit rules preserve coeff*scale and dimension, offset/logarithmic guards "
-          "raise exactly outside the algebra. Encoding: a positive scale is written s = t**N (N = the root degree the case needs) so "
+          "raise exactly outside the algebra. Operand axis 'spelled alike, valued differently': the same term / pair / triple catalogue, the "
+          "equality sandwich and the simplify / as_coeff_unit / cached-rule obligations are walked again over atoms xa, xA, kxA, xb where xA is a "
+          "unit NAMED xa with an independent symbolic scale (looked up in a second registry; made before registry.modify; made before "
+          "remove + add; built with explicit values), so that names cancel or merge in the expression (xa/xA -> 1, xa*xA -> xa**2) while the "
+          "scales do not: every law must hold on (scale, dimension) for all pairs of scales, with the cancelled quotient on either side of "
+          "every operator. A simplified unit (expression a bare number or number * symbols) is used as an operand as well. Encoding: a positive scale is written s = t**N (N = the root degree the case needs) so "
           "that every rational power is an exact monomial; the exponent bookkeeping of that normal form is harness code (trusted), "
           "the remaining (in)equalities - rounded coefficients, equality bands, offset forks - are z3 queries; all depth <= 1 terms are "
           "also run with plain symbols and the engine's root witnesses (QF_NRA) as a cross-check. Enumerated, not solved: term shapes, "
@@ -49,7 +54,15 @@ EXPLANATION = (
     "same-dimension table pairs chosen by the size of their scales, verdict from the harness' reading of the table, quotient / inverse "
     "restatements, a symbolic bystander xc**k on both sides, and x*u + y*v == x*s_u + y*s_v in SI for symbolic readings. If a changed "
     "Unit.__eq__ asks for the absolute size of a high-degree power product (math.isclose(..., abs_tol=...)), MonoReal answers a relatively "
-    "equal pair at once, hands a power product of total degree <= 8 to the solver and over-approximates the rest (see ASSUMPTIONS)."
+    "equal pair at once, hands a power product of total degree <= 8 to the solver and over-approximates the rest (see ASSUMPTIONS). "
+    "Family C05/alike/<kind>/...: a Unit carries its own scale, its expression carries only names, and nothing forces two units named xa to "
+    "have one scale (two registries; a unit object that outlives registry.modify or remove + add; a unit given explicit values). The atoms "
+    "xa, xA (named xa, own positive symbolic scale), kxA (named kxa, 1000 * that scale), xb go through the term, pair and triple obligations "
+    "of the main family - oracle: the monomial over the FOUR scales, which knows xa and xA apart; the expression is read back for its dimension "
+    "only, a result may live in either operand's registry, equal hashes are asked of two sides in one registry - plus v*(u/v) == u and "
+    "u*(v/v) == u, the equality sandwich on 12 pairs (xa == xA iff the scales agree, xb*(xa/xA) == xb iff they agree ...), and simplify / "
+    "as_coeff_unit / _multiply_units / _divide_units (both operand orders, warm cache) / unary rules on 10 operand pairs. In every simplify "
+    "case the simplified unit is also used as left and right operand of *, / and as base of a power."
 )
 BOUNDS = {
     "quick": "atoms {xa, xb, xc, kxa}; all 88 terms of depth <= 1 with every p in E given as Fraction/float/sympy Rational/numpy float, 260 seeded "
@@ -59,16 +72,27 @@ BOUNDS = {
              "every restatement on 4 main pairs, 7 on the others, odd/fractional powers on pairs of atoms); 122 table pairs chosen by magnitude (per "
              "dimension: all pairs below 1e-9, all pairs above 1e9, smallest vs largest, two smallest, two largest; neighbouring SI prefixes y..Y on "
              "m, eV, g; 26 compound / near-miss pairs) with quotient, inverse, bystander and sum obligations; 12 hash cases + 36 registry-history hash cases (8 expressions x 6 histories of add/modify/remove, 10 ways to rebuild at every point; ground); 260 simplify (incl. 22 same-dimension table pairs, 18 of non-integer ratio, in 5 forms each) and 40 cached-rule cases; guards: 11 units x 11 partners x 4 operators, "
-             "26 powers of 11 units; 4 unit-with-number cases",
+             "26 powers of 11 units; 4 unit-with-number cases; "
+             "alike-spelled operands (atoms xa, xA, kxA, xb; kinds tworeg, modify, readd, explicit): all 88 terms of depth <= 1 (those holding xa next "
+             "to its partner under all 4 kinds with 5 exponents, the others under one kind in rotation with 3), 60 + 40 seeded terms of depth 2 / 3 "
+             "(one kind each, in rotation), all 16 atom pairs (mixed ones under all kinds) + 40 seeded pairs, all 64 atom triples + 30 seeded "
+             "triples (one kind each), 12 equality pairs x 4 kinds, 10 simplify/cached-rule operand pairs x 4 kinds: 482 cases",
     "thorough": "same atoms; 1800 seeded terms of depth 2 and 1800 of depth 3; power-of-power over E x E for 40 terms; 1000 seeded pairs, 1000 seeded "
                 "triples; 1000 simplify and 300 cached-rule cases; equality, hash and guard tables as in quick, plus: 324 equality-law cases (every "
                 "restatement on all 12 pairs), 694 magnitude table pairs (EVERY same-dimension pair of the 145 table atoms, prefixes y..Y on 8 bases); "
-                "all ordered pairs of the 145 table atoms (ground)",
+                "all ordered pairs of the 145 table atoms (ground); alike-spelled operands: every depth <= 1 term, atom pair and atom triple under all "
+                "4 kinds, 400 + 400 seeded terms of depth 2 / 3, 300 seeded pairs, 300 seeded triples (one kind each, in rotation), equality and "
+                "simplify/cached-rule tables as in quick: 2322 cases",
 }
 OUTSIDE = ("IEEE rounding (A1); cancellation inside simplify() with symbolic scales (table units there: ground obligations); term shapes "
            "beyond the catalogue (depth > 3, root degree > 36); units of non-positive scale; hash equality of *different* spellings of "
            "equal units (not promised by the property); offsets on units that are neither temperature nor angle; u**0 of an offset unit; "
-           "cross-registry operands (C13); equality restatements inside the edge zone of the band (scales a relative 1e-11..1e-7 apart: "
+           "cross-registry operands other than the like-named pair of the alike family (a symbol missing from the left operand's registry, "
+           "registries of different unit systems: C13); in the alike family: the scale read back from the expression (the expression cannot "
+           "tell like-named units apart - only its dimension is asserted), equal hashes of equal units that live in two registries, simplify() "
+           "of an expression holding two DIFFERENT names of one dimension next to a like-named pair (xa with kxa: it cancels them with the "
+           "registry's current scales, symbolic there), like-named partners obtained by copy / deepcopy / pickle (C11, C13) or carrying an offset; "
+           "equality restatements inside the edge zone of the band (scales a relative 1e-11..1e-7 apart: "
            "rounding and |p| <= 3 may tip the verdict there); scales below 1e-90 / above 1e90 in replays of the equality cases; "
            "odd and fractional powers of compound pairs in the law family (atoms only)")
 ASSUMPTIONS = ["MonoReal (harness/unitterms_common.py): a positive scale symbol is introduced as t**N; the exponent arithmetic that keeps products, "
@@ -153,6 +177,64 @@ def make_env(ctx, extra=(), N=1, witness=False, wide=False):
     return reg, env, scale_of, dimvec_of
 
 
+# operands that are SPELLED ALIKE AND VALUED DIFFERENTLY. A Unit carries its own scale; its expression only carries names. Two units
+# named xa need not have one scale: they may belong to two registries (two simulation outputs, each with its own code_length), one may
+# have been made before and one after registry.modify / remove + add, or one may have been given explicit values. In a product or
+# quotient of such a pair the NAMES combine or cancel (xa/xa -> 1, xa*xa -> xa**2) while the SCALES do not: the result's expression says
+# less than its scale, and any step that reads the unit off the expression (an early return for 'expression is 1', an equality shortcut
+# on equal expressions, a rebuild from the expression) goes wrong exactly there. Atoms of this family: xa, xb, xc as before, xA = the
+# like-named partner of xa (expression xa, independent scale), kxA = its prefixed form (expression kxa).
+ALIKE_KINDS = ["tworeg", "modify", "readd", "explicit"]
+ALIKE_ATOMS = ["xa", "xA", "kxA", "xb"]
+ATOM_DEF["kxA"] = Mono(Fraction(1000), {"xA": Fraction(1)})
+
+
+def make_alike_env(ctx, kind, N=1, wide=False):
+    """-> reg (home registry: xa, xb, xc, kxa are looked up there), env, scale_of, dimvec_of, registries an operand may come from.
+    kind = how the like-named partner xA came to be:
+      tworeg    a second registry whose row xa has another scale; xA, kxA are looked up there
+      modify    xA, kxA are looked up in the home registry, then registry.modify('xa', new scale)
+      readd     the same with registry.remove('xa'); registry.add('xa', new scale, ...)
+      explicit  Unit('xa', base_value=..., dimensions=..., registry=home): a unit object given its own values
+    Both scales are independent positive symbols (t**N)."""
+    D = ctx.mods["unyt"].dimensions
+    Unit = ctx.mods["unyt"].Unit
+    rr = (1e-90, 1e90) if wide else (1e-12, 1e12)
+    sa, sl, sb, sc = (positive_scale(ctx, n, N, replay_range=rr) for n in ("ta", "tl", "tb", "tc"))
+
+    def rows(reg, s):
+        ctx.add_row(reg, "xa", D.length, s, 0.0, prefixable=True)
+        ctx.add_row(reg, "xb", D.mass, sb, 0.0)
+        ctx.add_row(reg, "xc", D.time, sc, 0.0)
+    reg = ctx.registry([])
+    regs = [reg]
+    if kind == "tworeg":
+        rows(reg, sa)
+        other = ctx.registry([])
+        rows(other, sl)
+        regs.append(other)
+        like, klike = Unit("xa", registry=other), Unit("kxa", registry=other)
+    elif kind in ("modify", "readd"):
+        rows(reg, sl)
+        like, klike = Unit("xa", registry=reg), Unit("kxa", registry=reg)
+        if kind == "modify":
+            reg.modify("xa", sa)
+        else:
+            reg.remove("xa")
+            reg.add("xa", sa, D.length, prefixable=True)
+    elif kind == "explicit":
+        rows(reg, sa)
+        like = Unit("xa", base_value=sl, dimensions=D.length, registry=reg)
+        klike = Unit("kxa", base_value=sl * 1000.0, dimensions=D.length, registry=reg)
+    else:
+        raise KeyError(kind)
+    env = _Env(Unit, reg)
+    env["xA"], env["kxA"] = like, klike
+    scale_of = {"xa": sa, "xA": sl, "xb": sb, "xc": sc}
+    dimvec_of = {"xa": {L_: F(1)}, "xA": {L_: F(1)}, "xb": {M_: F(1)}, "xc": {T_: F(1)}}
+    return reg, env, scale_of, dimvec_of, regs
+
+
 class _Env(dict):
     def __init__(self, Unit, reg):
         super().__init__()
@@ -164,16 +246,22 @@ class _Env(dict):
         return u
 
 
-def check_unit(ctx, tag, u, m, scale_of, dimvec_of, reg, observe=True):
-    """the three parallel representations of one unit (scale, dimensions, expression) against the oracle monomial"""
+def check_unit(ctx, tag, u, m, scale_of, dimvec_of, reg, observe=True, alike=None):
+    """the three parallel representations of one unit (scale, dimensions, expression) against the oracle monomial.
+    alike = the registries of the operands, in the family whose operands are spelled alike and valued differently: there the expression
+    cannot tell the two apart, so only its dimension is read back, and the result lives in one of the operands' registries"""
     want = mono_scale(m, scale_of)
     wd = mono_dimvec(m, dimvec_of)
     ctx.require(f"{tag}: scale is the product of powers of scales", close(u.base_value, want))
     ctx.require(f"{tag}: dimension is the product of powers of dimensions", dimvec(u.dimensions) == wd)
     es, ed = eval_expr(u.expr, scale_of, dimvec_of, lookup=_prefix_lookup(scale_of, dimvec_of))
-    ctx.require(f"{tag}: expression denotes the same scale", close(es, want))
+    if alike is None:
+        ctx.require(f"{tag}: expression denotes the same scale", close(es, want))
     ctx.require(f"{tag}: expression denotes the same dimension", ed == wd)
-    ctx.require(f"{tag}: zero offset, same registry", And(exact_eq(u.base_offset, 0.0), u.registry is reg))
+    if alike is None:
+        ctx.require(f"{tag}: zero offset, same registry", And(exact_eq(u.base_offset, 0.0), u.registry is reg))
+    else:
+        ctx.require(f"{tag}: zero offset, registry of an operand", And(exact_eq(u.base_offset, 0.0), any(u.registry is r for r in alike)))
     ctx.require(f"{tag}: is_dimensionless agrees", u.is_dimensionless == (wd == {}))
     if observe:
         ctx.observe(f"{tag}: scale", u.base_value)
@@ -190,8 +278,9 @@ def _prefix_lookup(scale_of, dimvec_of):
     return lookup
 
 
-def same_unit(ctx, tag, lhs, rhs, m, scale_of, dimvec_of, identical_expr=False):
-    """a law lhs == rhs: both sides equal the oracle, agree in dimension, and the real Unit.__eq__/__ne__ say so"""
+def same_unit(ctx, tag, lhs, rhs, m, scale_of, dimvec_of, identical_expr=False, cross=False):
+    """a law lhs == rhs: both sides equal the oracle, agree in dimension, and the real Unit.__eq__/__ne__ say so.
+    cross (operands of two registries): the two sides may live in different registries, equal hashes are asked of one registry only"""
     want = mono_scale(m, scale_of)
     wd = mono_dimvec(m, dimvec_of)
     ctx.require(f"{tag}: scales", And(close(lhs.base_value, want), close(rhs.base_value, want), close(lhs.base_value, rhs.base_value)))
@@ -200,48 +289,57 @@ def same_unit(ctx, tag, lhs, rhs, m, scale_of, dimvec_of, identical_expr=False):
     eq = bool(lhs == rhs)
     ctx.require(f"{tag}: Unit.__eq__", eq)
     ctx.require(f"{tag}: Unit.__ne__", (lhs != rhs) is (not eq))
-    if identical_expr:
+    if identical_expr and cross and lhs.registry is not rhs.registry:
+        ctx.require(f"{tag}: identical expression", lhs.expr == rhs.expr)
+    elif identical_expr:
         ctx.require(f"{tag}: identical expression and hash", And(lhs.expr == rhs.expr, hash(lhs) == hash(rhs)))
 
 
 # ----------------------------------------------------------------------------- term cases: homomorphism + unary laws
 
-def make_term_case(t, ps, witness=False):
+def make_term_case(t, ps, witness=False, alike=None):
     N = root_degree(t) * 6
 
     def h(ctx):
-        reg, env, scale_of, dimvec_of = make_env(ctx, N=N, witness=witness)
+        if alike is None:
+            reg, env, scale_of, dimvec_of = make_env(ctx, N=N, witness=witness)
+            regs, x = None, False
+        else:
+            reg, env, scale_of, dimvec_of, regs = make_alike_env(ctx, alike, N=N)
+            x = True
         Unit = ctx.mods["unyt"].Unit
         m = mono_expand(t)
         u = build(t, env, ctx.mods, reg)
-        check_unit(ctx, "term", u, m, scale_of, dimvec_of, reg)
+        check_unit(ctx, "term", u, m, scale_of, dimvec_of, reg, alike=regs)
         u2 = build(t, env, ctx.mods, reg)
         ctx.require("term: same expression, same registry state => same hash, equal, identical expression",
                     And(hash(u) == hash(u2), u.expr == u2.expr, bool(u == u2)))
         one = Unit(registry=reg)
         onem = Mono()
-        same_unit(ctx, "identity u*1", u * one, u, m, scale_of, dimvec_of, True)
-        same_unit(ctx, "identity 1*u", one * u, u, m, scale_of, dimvec_of, True)
-        same_unit(ctx, "identity u/1", u / one, u, m, scale_of, dimvec_of, True)
-        same_unit(ctx, "identity u**1", u ** 1, u, m, scale_of, dimvec_of, True)
-        same_unit(ctx, "u**0 is the identity", u ** 0, one, onem, scale_of, dimvec_of, True)
+        same_unit(ctx, "identity u*1", u * one, u, m, scale_of, dimvec_of, True, x)
+        same_unit(ctx, "identity 1*u", one * u, u, m, scale_of, dimvec_of, True, x)
+        same_unit(ctx, "identity u/1", u / one, u, m, scale_of, dimvec_of, True, x)
+        same_unit(ctx, "identity u**1", u ** 1, u, m, scale_of, dimvec_of, True, x)
+        same_unit(ctx, "u**0 is the identity", u ** 0, one, onem, scale_of, dimvec_of, True, x)
         inv = u ** -1
-        check_unit(ctx, "inverse", inv, m ** -1, scale_of, dimvec_of, reg, observe=False)
-        same_unit(ctx, "inverse u*u**-1", u * inv, one, onem, scale_of, dimvec_of, True)
-        same_unit(ctx, "inverse u**-1*u", inv * u, one, onem, scale_of, dimvec_of, True)
-        same_unit(ctx, "inverse u/u", u / u, one, onem, scale_of, dimvec_of, True)
-        same_unit(ctx, "inverse 1/u", one / u, inv, m ** -1, scale_of, dimvec_of, True)
-        same_unit(ctx, "inverse (u**-1)**-1", inv ** -1, u, m, scale_of, dimvec_of, True)
-        same_unit(ctx, "u*u == u**2", u * u, u ** 2, m ** 2, scale_of, dimvec_of, True)
+        check_unit(ctx, "inverse", inv, m ** -1, scale_of, dimvec_of, reg, observe=False, alike=regs)
+        same_unit(ctx, "inverse u*u**-1", u * inv, one, onem, scale_of, dimvec_of, True, x)
+        same_unit(ctx, "inverse u**-1*u", inv * u, one, onem, scale_of, dimvec_of, True, x)
+        same_unit(ctx, "inverse u/u", u / u, one, onem, scale_of, dimvec_of, True, x)
+        same_unit(ctx, "inverse 1/u", one / u, inv, m ** -1, scale_of, dimvec_of, True, x)
+        same_unit(ctx, "inverse (u**-1)**-1", inv ** -1, u, m, scale_of, dimvec_of, True, x)
+        same_unit(ctx, "u*u == u**2", u * u, u ** 2, m ** 2, scale_of, dimvec_of, True, x)
         r = 1 / u        # Unit.__rtruediv__ -> a quantity
         ctx.require("1/u (number over unit) is the quantity 1 in u**-1", And(close(payload(r)[0], 1.0), bool(r.units == inv), r.units.expr == inv.expr))
         for p in ps:
             ref = u ** exponent_value(p, "frac")
-            check_unit(ctx, f"u**{fstr(p)}", ref, m ** p, scale_of, dimvec_of, reg, observe=False)
+            check_unit(ctx, f"u**{fstr(p)}", ref, m ** p, scale_of, dimvec_of, reg, observe=False, alike=regs)
             for f in FORMS[1:]:
                 w = u ** exponent_value(p, f)
                 ctx.require(f"u**{fstr(p)}: exponent given as {f} == as Fraction",
                             And(w.expr == ref.expr, hash(w) == hash(ref), close(w.base_value, ref.base_value), dimvec(w.dimensions) == dimvec(ref.dimensions)))
+    if alike is not None:
+        return Case(f"C05/alike/{alike}/term/d{depth(t)}/{tid(t)}", h, group="alike")
     return Case(f"C05/{'termw' if witness else 'term'}/d{depth(t)}/{tid(t)}", h, group="term")
 
 
@@ -261,39 +359,56 @@ def make_powpow_case(t, p):
     return Case(f"C05/powpow/{tid(t)}/p={fstr(p)}", h, group="powpow")
 
 
-def make_pair_case(t1, t2, ps):
+def make_pair_case(t1, t2, ps, alike=None):
     N = lcm(root_degree(t1), root_degree(t2)) * 6
 
     def h(ctx):
-        reg, env, scale_of, dimvec_of = make_env(ctx, N=N)
+        if alike is None:
+            reg, env, scale_of, dimvec_of = make_env(ctx, N=N)
+            regs, x = None, False
+        else:
+            reg, env, scale_of, dimvec_of, regs = make_alike_env(ctx, alike, N=N)
+            x = True
         m1, m2 = mono_expand(t1), mono_expand(t2)
         u, v = build(t1, env, ctx.mods, reg), build(t2, env, ctx.mods, reg)
-        same_unit(ctx, "commutative u*v == v*u", u * v, v * u, m1 * m2, scale_of, dimvec_of, True)
-        check_unit(ctx, "u*v", u * v, m1 * m2, scale_of, dimvec_of, reg)
-        check_unit(ctx, "u/v", u / v, m1 / m2, scale_of, dimvec_of, reg)
-        same_unit(ctx, "u/v == u*v**-1", u / v, u * v ** -1, m1 / m2, scale_of, dimvec_of, True)
-        same_unit(ctx, "u/v == (v/u)**-1", u / v, (v / u) ** -1, m1 / m2, scale_of, dimvec_of, True)
-        same_unit(ctx, "(u/v)*v == u", (u / v) * v, u, m1, scale_of, dimvec_of, True)
-        same_unit(ctx, "(u*v)/v == u", (u * v) / v, u, m1, scale_of, dimvec_of, True)
+        same_unit(ctx, "commutative u*v == v*u", u * v, v * u, m1 * m2, scale_of, dimvec_of, True, x)
+        check_unit(ctx, "u*v", u * v, m1 * m2, scale_of, dimvec_of, reg, alike=regs)
+        check_unit(ctx, "u/v", u / v, m1 / m2, scale_of, dimvec_of, reg, alike=regs)
+        same_unit(ctx, "u/v == u*v**-1", u / v, u * v ** -1, m1 / m2, scale_of, dimvec_of, True, x)
+        same_unit(ctx, "u/v == (v/u)**-1", u / v, (v / u) ** -1, m1 / m2, scale_of, dimvec_of, True, x)
+        same_unit(ctx, "(u/v)*v == u", (u / v) * v, u, m1, scale_of, dimvec_of, True, x)
+        same_unit(ctx, "(u*v)/v == u", (u * v) / v, u, m1, scale_of, dimvec_of, True, x)
+        if alike is not None:
+            same_unit(ctx, "v*(u/v) == u", v * (u / v), u, m1, scale_of, dimvec_of, True, x)
+            same_unit(ctx, "u*(v/v) == u", u * (v / v), u, m1, scale_of, dimvec_of, True, x)
         for p in ps:
             e = exponent_value(p, "frac")
-            same_unit(ctx, f"(u*v)**{fstr(p)} == u**p*v**p", (u * v) ** e, u ** e * v ** e, (m1 * m2) ** p, scale_of, dimvec_of, True)
-            same_unit(ctx, f"(u/v)**{fstr(p)} == u**p/v**p", (u / v) ** e, u ** e / v ** e, (m1 / m2) ** p, scale_of, dimvec_of, True)
+            same_unit(ctx, f"(u*v)**{fstr(p)} == u**p*v**p", (u * v) ** e, u ** e * v ** e, (m1 * m2) ** p, scale_of, dimvec_of, True, x)
+            same_unit(ctx, f"(u/v)**{fstr(p)} == u**p/v**p", (u / v) ** e, u ** e / v ** e, (m1 / m2) ** p, scale_of, dimvec_of, True, x)
+    if alike is not None:
+        return Case(f"C05/alike/{alike}/pair/{tid(t1)},{tid(t2)}", h, group="alike")
     return Case(f"C05/pair/{tid(t1)},{tid(t2)}", h, group="pair")
 
 
-def make_triple_case(t1, t2, t3):
+def make_triple_case(t1, t2, t3, alike=None):
     N = lcm(lcm(root_degree(t1), root_degree(t2)), root_degree(t3))
 
     def h(ctx):
-        reg, env, scale_of, dimvec_of = make_env(ctx, N=N)
+        if alike is None:
+            reg, env, scale_of, dimvec_of = make_env(ctx, N=N)
+            x = False
+        else:
+            reg, env, scale_of, dimvec_of, regs = make_alike_env(ctx, alike, N=N)
+            x = True
         m1, m2, m3 = mono_expand(t1), mono_expand(t2), mono_expand(t3)
         u, v, w = (build(t, env, ctx.mods, reg) for t in (t1, t2, t3))
-        same_unit(ctx, "associative (u*v)*w == u*(v*w)", (u * v) * w, u * (v * w), m1 * m2 * m3, scale_of, dimvec_of, True)
-        same_unit(ctx, "(u/v)/w == u/(v*w)", (u / v) / w, u / (v * w), m1 / m2 / m3, scale_of, dimvec_of, True)
-        same_unit(ctx, "u*(v/w) == (u*v)/w", u * (v / w), (u * v) / w, m1 * m2 / m3, scale_of, dimvec_of, True)
-        same_unit(ctx, "u/(v/w) == (u*w)/v", u / (v / w), (u * w) / v, m1 * m3 / m2, scale_of, dimvec_of, True)
+        same_unit(ctx, "associative (u*v)*w == u*(v*w)", (u * v) * w, u * (v * w), m1 * m2 * m3, scale_of, dimvec_of, True, x)
+        same_unit(ctx, "(u/v)/w == u/(v*w)", (u / v) / w, u / (v * w), m1 / m2 / m3, scale_of, dimvec_of, True, x)
+        same_unit(ctx, "u*(v/w) == (u*v)/w", u * (v / w), (u * v) / w, m1 * m2 / m3, scale_of, dimvec_of, True, x)
+        same_unit(ctx, "u/(v/w) == (u*w)/v", u / (v / w), (u * w) / v, m1 * m3 / m2, scale_of, dimvec_of, True, x)
         ctx.observe("(u*v)*w", ((u * v) * w).base_value)
+    if alike is not None:
+        return Case(f"C05/alike/{alike}/triple/{tid(t1)},{tid(t2)},{tid(t3)}", h, group="alike")
     return Case(f"C05/triple/{tid(t1)},{tid(t2)},{tid(t3)}", h, group="triple")
 
 
@@ -414,6 +529,149 @@ def make_eq_case(name, extra, t1, t2):
         ctx.require("eq: reflexive", And(bool(u == u), bool(v == v), not (u != u)))
         ctx.require("eq: not equal to a non-unit", And(not (u == str(u)), not (u == 1.0), u != None))  # noqa: E711
     return Case(f"C05/eq/sym/{name}", h, group="eq")
+
+
+# ----------------------------------------------------------------------------- alike-spelled operands: equality, simplify, cached rules
+
+ALIKE_EQ = [
+    # (id, lhs, rhs): equal exactly when the oracle scales agree - never because the expressions do
+    ("xa=xA", A("xa"), A("xA")),
+    ("kxa=kxA", A("kxa"), A("kxA")),
+    ("kxa=xA", A("kxa"), A("xA")),
+    ("xa:xA=one", Dv(A("xa"), A("xA")), A("dimensionless")),
+    ("xA:xa=xa:xA", Dv(A("xA"), A("xa")), Dv(A("xa"), A("xA"))),
+    ("xa.xA=xa^2", M(A("xa"), A("xA")), P(A("xa"), 2)),
+    ("xa.xb=xA.xb", M(A("xa"), A("xb")), M(A("xA"), A("xb"))),
+    ("xb.(xa:xA)=xb", M(A("xb"), Dv(A("xa"), A("xA"))), A("xb")),
+    ("(xa:xA).xb=xb", M(Dv(A("xa"), A("xA")), A("xb")), A("xb")),
+    ("xb:(xa:xA)=xb", Dv(A("xb"), Dv(A("xa"), A("xA"))), A("xb")),
+    ("xa^1|2=xA^1|2", P(A("xa"), F(1, 2)), P(A("xA"), F(1, 2))),
+    ("xa:xc=xA:xc", Dv(A("xa"), A("xc")), Dv(A("xA"), A("xc"))),
+]
+
+
+def make_alike_eq_case(kind, name, t1, t2):
+    N = lcm(root_degree(t1), root_degree(t2))
+
+    def h(ctx):
+        reg, env, scale_of, dimvec_of, regs = make_alike_env(ctx, kind, N=N, wide=True)
+        scale_of["dimensionless"], dimvec_of["dimensionless"] = 1.0, {}
+        m1, m2 = mono_expand(t1), mono_expand(t2)
+        u, v = build(t1, env, ctx.mods, reg), build(t2, env, ctx.mods, reg)
+        s1, s2 = mono_scale(m1, scale_of), mono_scale(m2, scale_of)
+        d1, d2 = mono_dimvec(m1, dimvec_of), mono_dimvec(m2, dimvec_of)
+        ctx.require("alike eq: operands have the oracle's scale and dimension",
+                    And(close(u.base_value, s1), close(v.base_value, s2), dimvec(u.dimensions) == d1, dimvec(v.dimensions) == d2))
+        sandwich(ctx, "alike eq", u, v, s1, s2, 0.0, 0.0, d1 == d2)
+        ctx.require("alike eq: reflexive", And(bool(u == u), bool(v == v), not (u != u)))
+    return Case(f"C05/alike/{kind}/eq/{name}", h, group="alike")
+
+
+ALIKE_FORMS = [
+    # (u, v): simplify()/as_coeff_unit() of u*v and u/v, and the cached unit rules of unyt.array on (u, v). No pair of DIFFERENT names of one
+    # dimension (xa next to kxa): simplify() would cancel it with the registry's current scales, and sympy cannot hold a solver term
+    (A("xa"), A("xA")), (A("xA"), A("xa")), (A("xb"), Dv(A("xa"), A("xA"))), (Dv(A("xa"), A("xA")), A("xb")), (M(A("xa"), A("xb")), A("xA")),
+    (P(A("xa"), 2), A("xA")), (Dv(A("xa"), A("xc")), Dv(A("xA"), A("xc"))), (Dv(A("xA"), A("xa")), Dv(A("xa"), A("xA"))), (A("kxA"), A("xb")),
+    (P(Dv(A("xa"), A("xA")), F(1, 2)), A("xc")),
+]
+
+
+def make_alike_forms_case(kind, t1, t2, idx):
+    N = lcm(root_degree(t1), root_degree(t2)) * 6
+
+    def h(ctx):
+        reg, env, scale_of, dimvec_of, regs = make_alike_env(ctx, kind, N=N)
+        UA = ctx.mods["UA"]
+        m1, m2 = mono_expand(t1), mono_expand(t2)
+        u, v = build(t1, env, ctx.mods, reg), build(t2, env, ctx.mods, reg)
+        for tag, w, m in (("u*v", u * v, m1 * m2), ("u/v", u / v, m1 / m2), ("v*u", v * u, m1 * m2)):
+            want, wd = mono_scale(m, scale_of), mono_dimvec(m, dimvec_of)
+            before = (w.expr, w.base_value)
+            z = w.simplify()
+            ctx.require(f"alike simplify {tag}: scale and dimension unchanged, equal to the unit before, a new object",
+                        And(close(z.base_value, want), dimvec(z.dimensions) == wd, bool(z == w), z is not w, w.expr == before[0], close(w.base_value, want)))
+            z2 = z.simplify()
+            ctx.require(f"alike simplify {tag}: idempotent", And(z2.expr == z.expr, close(z2.base_value, want)))
+            c, r = z.as_coeff_unit()
+            ctx.require(f"alike as_coeff_unit {tag}: coeff * unit denotes the same scale and dimension",
+                        And(close(c * r.base_value, want), dimvec(r.dimensions) == wd, numeric_coefficient(r.expr) == 1))
+            c0, r0 = w.as_coeff_unit()
+            ctx.require(f"alike as_coeff_unit {tag} (unsimplified): coeff * unit denotes the same scale", And(close(c0 * r0.base_value, want), dimvec(r0.dimensions) == wd))
+        for name, rule, m in (("_multiply_units", UA._multiply_units, m1 * m2), ("_divide_units", UA._divide_units, m1 / m2)):
+            want, wd = mono_scale(m, scale_of), mono_dimvec(m, dimvec_of)
+            c, w = rule(u, v)
+            ctx.require(f"alike {name}: coeff * unit is the product/quotient", And(close(c * w.base_value, want), dimvec(w.dimensions) == wd))
+            c2, w2 = rule(u, v)   # warm lru_cache
+            ctx.require(f"alike {name}: cached answer is the same", And(close(c2, c), w2.expr == w.expr, close(w2.base_value, w.base_value)))
+            cr, wr = rule(v, u)   # the same spellings the other way round must not be answered from the first entry
+            mr = m1 * m2 if name == "_multiply_units" else m2 / m1
+            ctx.require(f"alike {name}: operands swapped", And(close(cr * wr.base_value, mono_scale(mr, scale_of)), dimvec(wr.dimensions) == mono_dimvec(mr, dimvec_of)))
+            ctx.observe(name + " coeff", c)
+        for name, rule, m in (("_sqrt_unit", UA._sqrt_unit, m1 ** F(1, 2)), ("_square_unit", UA._square_unit, m1 ** 2), ("_reciprocal_unit", UA._reciprocal_unit, m1 ** -1)):
+            for tag, x, mx in (("u", u, m), ("v", v, {"_sqrt_unit": m2 ** F(1, 2), "_square_unit": m2 ** 2, "_reciprocal_unit": m2 ** -1}[name])):
+                c, w = rule(x)
+                ctx.require(f"alike {name}({tag}): scale and dimension", And(close(c * w.base_value, mono_scale(mx, scale_of)), dimvec(w.dimensions) == mono_dimvec(mx, dimvec_of)))
+        for pw in (2, 0.5):
+            for tag, x, mx in (("u", u, m1), ("v", v, m2)):
+                c, w = UA._power_unit(x, pw)
+                mp = mx ** Fraction(pw)
+                ctx.require(f"alike _power_unit({tag}, {pw}): scale and dimension", And(close(c * w.base_value, mono_scale(mp, scale_of)), dimvec(w.dimensions) == mono_dimvec(mp, dimvec_of)))
+    return Case(f"C05/alike/{kind}/forms/{idx:02d}/{tid(t1)},{tid(t2)}", h, group="alike")
+
+
+def is_mixed(*terms):
+    """does the term (tuple) hold xa next to its like-named partner"""
+    names = set()
+    for t in terms:
+        names |= atoms_of(t)
+    return bool(names & {"xa", "kxa"}) and bool(names & {"xA", "kxA"})
+
+
+def alike_cases(quick):
+    """the catalogue of the main family over the atoms xa, xA, kxA, xb, each case under a kind of like-named partner. quick: terms / atom
+    pairs / atom triples that hold xa next to its partner run under every kind, the others under one kind in rotation; thorough:
+    every depth <= 1 term, atom pair and atom triple under every kind, seeded deeper terms / pairs / triples under one kind in rotation"""
+    out = []
+    atoms, d1, d2, d3 = catalogue(ALIKE_ATOMS, 60 if quick else 400, 40 if quick else 400, seed=23)
+    rot = itertools.cycle(ALIKE_KINDS)
+    ps_main = [F(2), F(-1), F(1, 2), F(-1, 3), F(3, 2)]
+    some_p = [F(2), F(-1, 2), F(2, 3)]
+
+    def kinds_for(*terms):
+        return ALIKE_KINDS if (not quick or is_mixed(*terms)) else [next(rot)]
+    for t in atoms + d1:
+        for k in kinds_for(t):
+            out.append(make_term_case(t, ps_main if is_mixed(t) else some_p, alike=k))
+    for t in d2 + d3:
+        out.append(make_term_case(t, some_p, alike=next(rot)))
+    rnd = random.Random(29)
+    pool = atoms + d1 + d2
+    seen = set()
+    for a, b in itertools.product(atoms, atoms):
+        seen.add((a, b))
+        for k in kinds_for(a, b):
+            out.append(make_pair_case(a, b, some_p, alike=k))
+    while len(seen) < 16 + (40 if quick else 300):
+        a, b = rnd.choice(pool), rnd.choice(pool)
+        if (a, b) not in seen:
+            seen.add((a, b))
+            out.append(make_pair_case(a, b, rnd.sample(EXPONENTS[2:], 2), alike=next(rot)))
+    seen = set()
+    for tr in itertools.product(atoms, atoms, atoms):
+        seen.add(tr)
+        for k in (ALIKE_KINDS if not quick else [next(rot)]):
+            out.append(make_triple_case(*tr, alike=k))
+    while len(seen) < 64 + (30 if quick else 300):
+        tr = (rnd.choice(pool), rnd.choice(pool), rnd.choice(pool))
+        if tr not in seen:
+            seen.add(tr)
+            out.append(make_triple_case(*tr, alike=next(rot)))
+    for k in ALIKE_KINDS:
+        for name, t1, t2 in ALIKE_EQ:
+            out.append(make_alike_eq_case(k, name, t1, t2))
+        for i, (t1, t2) in enumerate(ALIKE_FORMS):
+            out.append(make_alike_forms_case(k, t1, t2, i))
+    return out
 
 
 # ----------------------------------------------------------------------------- equality is compatible with the algebra
@@ -805,6 +1063,19 @@ def make_simp_case(t, idx):
         ctx.require("as_coeff_unit: leaves the unit untouched", And(v.expr == e1, close(v.base_value, want)))
         c0, w0 = u0.as_coeff_unit()
         ctx.require("as_coeff_unit (unsimplified): coeff * unit denotes the same scale", And(close(c0 * w0.base_value, want), dimvec(w0.dimensions) == wd))
+        # the simplified unit as an OPERAND (its expression may now be a bare number, or a number times symbols): scale and dimension
+        # of products, quotients and powers with it on either side are those of the unit before
+        b, sb, bd = env["xb"], scale_of["xb"], {M_: F(1)}
+
+        def vec(a, c, sign):
+            o = dict(a)
+            for k, e in c.items():
+                o[k] = o.get(k, F(0)) + sign * e
+            return {k: e for k, e in o.items() if e != 0}
+        for tag, w, ws, wv in (("b*v", b * v, sb * want, vec(bd, wd, 1)), ("v*b", v * b, want * sb, vec(wd, bd, 1)), ("b/v", b / v, sb / want, vec(bd, wd, -1)),
+                               ("v/b", v / b, want / sb, vec(wd, bd, -1)), ("v*v", v * v, want * want, vec(wd, wd, 1)), ("v**-1", v ** -1, 1 / want, vec({}, wd, -1)),
+                               ("v0*v", v0 * v2, want * want, vec(wd, wd, 1))):
+            ctx.require(f"simplified unit as operand {tag}: scale and dimension", And(close(w.base_value, ws), dimvec(w.dimensions) == wv))
         ctx.observe("simplified", str(v))
         ctx.observe("coeff", c)
         ctx.observe("scale", v.base_value)
@@ -1190,6 +1461,7 @@ def cases(tier, mods):
         if tr not in seen:
             seen.add(tr)
             out.append(make_triple_case(*tr))
+    out += alike_cases(quick)
     for name, extra, t1, t2 in EQ_PAIRS:
         out.append(make_eq_case(name, extra, t1, t2))
     out += law_cases(quick)
